@@ -427,8 +427,56 @@ def run(rep):
                 got = {c: outcome(c) for c in ("none", "eq", "ne")}
                 ok = got == {"none": "false", "eq": "continue", "ne": "false"}
                 det = str(got) + " " + show(m)
+            elif not ms:
+                # comparison form: `if !(p.next() == Some(v)) { <answer false> }` (e.g. the flag loop of `.all(..)`)
+                t0 = b.get("expr")
+                while t0 is not None and peel(t0).get("k") == "Block" and peel(t0).get("expr") is not None:
+                    t0 = peel(t0)["expr"]
+                tailv = q.var_id(t0) if t0 is not None else None
+
+                def truth(e, case):
+                    e = peel(e)
+                    if e.get("k") == "Unary" and e["op"] == "Not":
+                        t_ = truth(e["arg"], case)
+                        return None if t_ is None else not t_
+                    ops = None
+                    if e.get("k") == "Binary" and e["op"] in ("Eq", "Ne"):
+                        ops = (peel(e["lhs"]), peel(e["rhs"]), e["op"] == "Eq")
+                    elif call_is(e, "PartialEq::eq") or call_is(e, "PartialEq::ne"):
+                        ops = (peel(e["args"][0]), peel(e["args"][1]), call_is(e, "PartialEq::eq"))
+                    if ops is None:
+                        return None
+                    a_, b_, is_eq = ops
+                    if call_is(b_, "Iterator::next"):
+                        a_, b_ = b_, a_
+                    if not call_is(a_, "Iterator::next"):
+                        return None
+                    if b_.get("k") == "Adt" and b_.get("variant") == "Some" and q.var_id(b_["fields"][0]["e"]) == vid:
+                        same = case == "eq"
+                    elif b_.get("k") == "Adt" and b_.get("variant") == "None":
+                        same = case == "none"
+                    else:
+                        return None
+                    return same if is_eq else not same
+                ifs = [n for n in walk(fl["body"]) if n.get("k") == "If" and not n.get("exp")]
+                nexts = [n for n in walk(fl["body"]) if call_is(n, "Iterator::next")]
+                got = {}
+                if len(ifs) == 1 and len(nexts) == 1 and not ifs[0].get("else"):
+                    th = ifs[0]["then"]
+                    says_false = q.returns_sr(th, "False") or any(x.get("k") == "Return" and lit(x.get("value")) == ("bool", False) for x in walk(th)) or \
+                        (any(x.get("k") == "Assign" and q.var_id(x["lhs"]) == tailv and lit(x["rhs"]) == ("bool", False) for x in walk(th)) and any(x.get("k") == "Break" for x in walk(th)))
+                    for c in ("none", "eq", "ne"):
+                        t_ = truth(ifs[0]["cond"], c)
+                        got[c] = "?" if t_ is None or not says_false else ("false" if t_ else "continue")
+                ok = got == {"none": "false", "eq": "continue", "ne": "false"}
+                det = str(got) + " " + show(fl)[:120]
         rep.check(ok, "MATCH-AHEAD", "MATCH-AHEAD/loop", site, "for v in literal.chars(): next()==Some(c) with v != c => false; None => false; otherwise continue", det)
-        rep.check(lit(b.get("expr")) == ("bool", True), "MATCH-AHEAD", "MATCH-AHEAD/true", site, "falls through to true", show(b.get("expr")) if b.get("expr") else "-")
+        tail_ = b.get("expr")
+        while tail_ is not None and peel(tail_).get("k") == "Block" and peel(tail_).get("expr") is not None:
+            tail_ = peel(tail_)["expr"]
+        oktrue = lit(tail_) == ("bool", True) or (tail_ is not None and q.var_id(tail_) is not None and lit(q.let_init(b, q.var_id(tail_))) == ("bool", True) and
+                                                    all(lit(x["rhs"]) == ("bool", False) for x in walk(b) if x.get("k") == "Assign" and q.var_id(x["lhs"]) == q.var_id(tail_)))
+        rep.check(oktrue, "MATCH-AHEAD", "MATCH-AHEAD/true", site, "falls through to true", show(b.get("expr")) if b.get("expr") else "-")
     # "redundant parentheses never change a verdict": a parenthesised and/or chain is a binary tree where the flat one is a group, so
     # the binary and the group form of each connective have to agree (evaluated on the extracted solver model, shared with C06)
     import core
